@@ -8,9 +8,9 @@ META = {
     'rule': 'well-typed bodies generated from the documented typing rules (operator classes, int-only conditions/counters, assignment/declaration types, call arity and parameter types, '
             'sigils, casts) must be accepted; for each, single-point mutations replace one typed expression slot (operand, condition, count, initialiser, argument, switch case, ternary branch) at a '
             'random position - any nesting depth, any statement kind - by an expression of another type, or change a call arity / use a non-void expression statement: those must be rejected; '
-            'for accepted bodies the static type of every assignment RHS subexpression must equal the type of its evaluated value. distinct = hash(shape, fault context); non-trivial = body has >= 3 statements',
+            'a finite matrix of every operator / condition / count / branch / argument construct x operand types (int, float, string; literal and register), each cell placed in a random nesting, must get the verdict of the rule table in vlib/typematrix.py; for accepted bodies the static type of every assignment RHS subexpression must equal the type of its evaluated value. distinct = hash(shape, fault context); non-trivial = body has >= 3 statements',
     'assumptions': ['the generator is the reference typer: well-typedness holds by construction, ill-typedness by the single injected fault'],
-    'floors': {'welltyped_accepted': 100, 'illtyped_rejected': 300, 'fault_contexts': 6, 'fault_block_depths': 3, 'static_dynamic_pairs': 300},
+    'floors': {'matrix_cells': 400, 'welltyped_accepted': 100, 'illtyped_rejected': 300, 'fault_contexts': 6, 'fault_block_depths': 3, 'static_dynamic_pairs': 300},
 }
 SIZES = {'quick': 700, 'thorough': 20000}
 
@@ -30,8 +30,35 @@ def all_state(r):
     for g in TL.FLOAT_REGS + TL.EXTRA_FLOAT: regs[str(g)] = {'f': LW.f32bits(r.uniform(-2, 2))}
     return {'regs': regs}
 
+def matrix_part(ctx, r):
+    """The finite construct x operand-type matrix (vlib/typematrix.py), each cell in a random nesting."""
+    from .. import typematrix as TM
+    cfg = TL.Config()
+    cfg.mapfile()
+    cs = TM.cells('REG[1000]', 'REG[1004]', 'REG[1001]', 'REG[1005]', 'call_S', 'call_f')
+    reps = 1 if ctx.tier == 'quick' else 4
+    for k, (tag, stmt, want) in enumerate(cs):
+        if k % ctx.nshards != ctx.shard: continue
+        for _ in range(reps):
+            wname, text = TM.wrap(r, stmt, 'REG[1002]')
+            body = '{\n' + text + '\nins_101();\n}'
+            resp = ctx.call(req_for(cfg, body))
+            ctx.evaluations += 1
+            replay = {'req': req_for(cfg, body), 'cell': tag, 'expected': want}
+            if 'panic' in resp:
+                ctx.violation('typeck:matrix:panic:' + core.panic_sig(resp['panic']), '%s: %s' % (tag, resp['panic']['msg'][:200]), replay); continue
+            if resp.get('stage') != 'done':
+                ctx.count('matrix_unresolved'); ctx.seen('matrix_unresolved_reasons', tag + ': ' + core.norm_msg(core.headline(resp.get('diag', '')))[:60]); continue
+            got = 'accept' if resp['accepted'] else 'reject'
+            ctx.count('matrix_cells'); ctx.seen('matrix_wrappers', wname)
+            if got != want:
+                ctx.violation('typeck:matrix:%ss-%s:%s' % (got, 'illtyped' if want == 'reject' else 'welltyped', tag), '`%s` (%s) was %sed; the typing rules say %s. %s' % (stmt.replace('\n', ' '), wname, got, want, resp.get('diag', '')[:200]), replay)
+            else:
+                ctx.fp('matrix', tag, wname)
+
 def run_shard(ctx):
     r = ctx.rng
+    matrix_part(ctx, r)
     n = SIZES[ctx.tier] // ctx.nshards + 1
     for i in range(n):
         cfg = TL.Config(r, pools='large')
